@@ -37,6 +37,7 @@ def run(rep, tier):
     F = Facts("default")
     earcut_layout(rep, F)
     monopoly_position(rep, F)
+    snap_table(rep, F)
     # every exact predicate this property rests on is a sign of the orientation kernel (rules shared with C03)
     from . import c03 as _c03
     _c03.kernel_rules(rep, F, "R10.12")
@@ -49,6 +50,7 @@ def run(rep, tier):
     collection_contains_point(rep, F)
     subdivision_intersects(rep, F)
     monopoly_position(rep, F)
+    snap_table(rep, F)
 
 
 def earcut_layout(rep, F):
@@ -625,3 +627,56 @@ def monopoly_position(rep, F, rule="R10.11"):
                         top, bot, fmt(q), "/".join(sorted(gots)) or "no row", want), where=fn.loc())
                     return
     rep.ok(rule, "monopoly[%d witnesses, %d shapes]" % (total, len(shapes)))
+
+
+# ------------------------------------------------------------------------------------------------ R10.13
+def snap_table(rep, F, rule="R10.13"):
+    """snap_or_register_point (the de-duplication of constraint end points in front of the Delaunay back end) with two known points, evaluated
+    numerically on witnesses near the origin and at offsets of 1e6: a point is replaced by the nearest known point exactly when their
+    Euclidean distance is below the snap radius AS GIVEN, otherwise it is kept and registered - distinct polygon vertices a unit apart are
+    not merged because they lie far from the origin (merged vertices make constraint lines collapse and triangles vanish)."""
+    import math
+    from ..numeval import NumEval
+    from ..evalterm import NoModel, Enum
+    rep.rule(rule, "snap_or_register_point (two known points; witnesses near the origin and at offset 1e6): the nearest known point is returned exactly when it is closer than the given snap radius, otherwise the point itself, which is then registered")
+    try:
+        fn = F.one(r"triangulate_delaunay::snap_or_register_point$", crates=("geo",))
+    except KeyError as e:
+        rep.bad(rule, "snap:anchor", str(e))
+        return
+    kp = ("call", "vec!", (("array", (("opaque", "k0"), ("opaque", "k1"))),))
+    ex = Symex(F, concrete_iters=True, loop_bound=8, inline_crates=("geo", "geo_types"), max_depth=14, max_paths=5000, budget_s=30)
+    ex.live_iter_mut = True
+    try:
+        paths = [p for p in ex.run(fn, args=[("opaque", "p"), ("arg", 2), ("opaque", "r")], mem={("arg", 2): kp}) if p.kind != "cut"]
+    except Unanalysable as e:
+        rep.bad(rule, "snap:unanalysable", str(e), where=fn.loc())
+        return
+    n = 0
+    for ox, oy in ((0.0, 0.0), (1.0e6, 2.0e6), (-4.0e6, 2.5e5)):
+        for (k0, k1, pt, r) in (((0, 0), (5, 0), (1, 0), 1e-4), ((0, 0), (5, 0), (0.00005, 0), 1e-4), ((0, 0), (5, 0), (5, 0.00002), 1e-4), ((0, 0), (5, 0), (2, 3), 1e-4), ((0, 0), (1, 0), (0.75, 0), 0.5)):
+            D = lambda c: {"x": ox + c[0], "y": oy + c[1]}
+            ev = NumEval(F, {("opaque", "k0"): D(k0), ("opaque", "k1"): D(k1), ("opaque", "p"): D(pt), ("opaque", "r"): r})
+            try:
+                hit = ev.select_path(paths)
+                if len(hit) != 1 or hit[0].kind != "ret":
+                    rep.bad(rule, "snap:table", "known %s %s, point %s (offset (%s, %s)) selects %s" % (k0, k1, pt, ox, oy, [h.kind for h in hit]), where=fn.loc())
+                    return
+                v = ev.ev(hit[0].ret)
+                got = (float(v["x"]), float(v["y"]))
+                fin = ev.ev(ex.canon(hit[0].st, hit[0].st.mem.get(("S", ("arg", 2)))))
+                n_known = len(fin) if isinstance(fin, list) else None
+            except (NoModel, TypeError, KeyError, ValueError) as e:
+                rep.bad(rule, "snap:non-abstractable", "cannot be evaluated: %s" % e, where=fn.loc())
+                return
+            # reference on the untranslated configuration
+            d0, d1 = math.hypot(pt[0] - k0[0], pt[1] - k0[1]), math.hypot(pt[0] - k1[0], pt[1] - k1[1])
+            near, dn = (k0, d0) if d0 <= d1 else (k1, d1)
+            want = near if dn < r else pt
+            wantD = (ox + want[0], oy + want[1])
+            n += 1
+            if abs(got[0] - wantD[0]) > 1e-9 or abs(got[1] - wantD[1]) > 1e-9 or (n_known is not None and n_known != (2 if dn < r else 3)):
+                rep.bad(rule, "snap:table", "known points %s and %s, point %s, all translated by (%s, %s), snap radius %s: returns %s with %s known point(s) afterwards; the nearest known point is at distance %.6g, so the result should be %s" % (
+                    k0, k1, pt, ox, oy, r, got, n_known, dn, wantD), where=fn.loc())
+                return
+    rep.ok(rule, "snap[%d witnesses]" % n)
